@@ -28,7 +28,7 @@ RULE = ('cases: seeded histories of 40 ops (add / move / move_to / remove / move
         'by (world kind, extents, wrap, op-kind trace).')
 ASSUMPTIONS = ['only axes of positive extent are claimed (zero-extent axes are read back but not judged)',
                'extents are 0 or >= 1', 'float landing is exact on multiples of 1/8 below 2^40; elsewhere within 4*(ulp(|old|+|delta|)+ulp(extent)): float % rounds once more when it folds a negative remainder']
-FLOORS = {'quick': {'operations_after_which_nobody_looked': 6022, 'histories_continued_after_the_model_completed': 185, 'pattern_like_or_unnormalised_ids': 900, 'cases_in_mode_warnings': 126, 'cases_in_mode_optimised': 126, 'histories_continued_on_a_deep_copy': 571, 'calls_refused_for_a_wrong_typed_coordinate': 424, 'operations_in_the_other_world': 3968, 'calls_with_numpy_scalars': 2849, 'wrap_mode_switched_mid_history': 795, 'placements_rejected_as_duplicate': 789, 'moves_wrap': 3933, 'moves_clamp': 3859, 'multi_lap_wraps': 800, 'saturated_low': 500, 'saturated_high': 500,
+FLOORS = {'quick': {'operations_after_which_nobody_looked': 6022, 'histories_continued_after_the_model_completed': 185, 'pattern_like_or_unnormalised_ids': 900, 'cases_in_mode_warnings': 126, 'cases_in_mode_optimised': 126, 'histories_continued_on_a_deep_copy': 571, 'calls_refused_for_a_wrong_typed_coordinate': 424, 'operations_in_the_other_world': 3968, 'calls_with_numpy_scalars': 2849, 'wrap_mode_switched_mid_history': 795, 'placements_rejected_as_duplicate': 789, 'moves_wrap': 3898, 'moves_clamp': 3853, 'multi_lap_wraps': 800, 'saturated_low': 500, 'saturated_high': 500,
                     'move_to_accepted': 2000, 'move_to_rejected': 2000, 'boundary_landings': 1500, 'removals': 1000, 'deprecated_alias_calls': 300, 'big_histories': 6, 'big_history_ops': 3000, 'wild_ops': 500,
                     'exact_ops': 6721, 'contract:SpaceWorld.containment': 30000, 'world_space': 200, 'world_discrete': 200, 'world_line': 80, 'world_grid': 80,
                     'reach:Environments.SpaceWorld.move': 8000, 'reach:Environments.SpaceWorld.move_to': 4000},
